@@ -225,7 +225,7 @@ func c12hpRecvClass(c *c12hpRecvCase, o *c12hpRecvObs) (class, sig string) {
 		reply = "replied"
 	}
 	class = fmt.Sprintf("%s/%s/connects=%d", reply, end, n)
-	sig = fmt.Sprintf("%s|%s|%s|%d|%s", class, c12hpRConnNames[c.Conn], o.ReplyType, len(o.ReplyAddrs), sb.String())
+	sig = fmt.Sprintf("%s|%s|%s|%s|%d|%s", class, c12hpRConnNames[c.Conn], c12hpAnsNames[c.First], o.ReplyType, len(o.ReplyAddrs), sb.String())
 	return class, sig
 }
 
@@ -254,7 +254,8 @@ func c12hpReceiver(t *testing.T) {
 						for _, cok := range []bool{false, true} {
 							for _, od := range []bool{false, true} {
 								idx++
-								if idx%nshards != shard {
+								// split by (connection, first message), both part of the signature: per-worker distinct counts add up exactly
+								if (conn*c12hpAnsStreamErr+first)%nshards != shard {
 									continue
 								}
 								if r.Executions%512 == 0 && time.Now().After(deadline) {
